@@ -16,3 +16,7 @@ func VerifNormalizeURI(refPath, base string) string { return normalizeURI(refPat
 func VerifDenormalizeRef(ref *Ref, originalRelativeBase, id string) Ref {
 	return denormalizeRef(ref, originalRelativeBase, id)
 }
+
+// VerifDefaultCache returns what a call made without a caller cache runs on: a clone of the package-level
+// cache, of the package's own cache type (so that the harness can share one between goroutines).
+func VerifDefaultCache() ResolutionCache { return cacheOrDefault(nil) }
